@@ -60,6 +60,7 @@ struct Variant
 {
     char const* name;
     bool calo;
+    TrackOrder order{TrackOrder::none};
 };
 
 static std::unique_ptr<LoopProblem> make_problem(Variant const& v, unsigned streams, unsigned slots)
@@ -74,6 +75,7 @@ static std::unique_ptr<LoopProblem> make_problem(Variant const& v, unsigned stre
     cfg.xs_electron = 3.0;
     cfg.action_diagnostic = true;
     cfg.step_diagnostic = true;
+    cfg.track_order = v.order;
     if (v.calo)
     {
         cfg.with_recorder = false;
